@@ -33,6 +33,7 @@ CALLEES = {
     "acc": ("def acc(x: bool, y: bool) -> bool:\n    t = x and y\n    t = t or (not x)\n    t = t ^ y\n    return t\n", ["bool", "bool"], "bool"),
     "cw": ("def cw(x: bool, y: bool) -> bool:\n    r = x\n    if y:\n        r = not x\n    return r\n", ["bool", "bool"], "bool"),
     "lp": ("def lp(t: Tuple[bool, bool]) -> bool:\n    h = True\n    for i in range(2):\n        h = h and t[i]\n    return h\n", ["Tuple[bool, bool]"], "bool"),
+    "sw": ("def sw(x: Qint[2], y: Qint[2]) -> Tuple[Qint[2], Qint[2]]:\n    return (y, x + 1)\n", ["Qint[2]", "Qint[2]"], "Tuple"),
     "ia": ("def ia(x: Qint[2], y: Qint[2]) -> Qint[2]:\n    c = x + y\n    c = c ^ y\n    c += 1\n    return c\n", ["Qint[2]", "Qint[2]"], "Qint[2]"),
 }
 
@@ -81,7 +82,7 @@ def callers(name):
         out.append("def tfun(a: Qint[2], b: Qint[2]) -> Qint[2]:\n    c = a\n    if a > b:\n        c = {g}(b)\n    return c\n")
         out.append("def tfun(a: Qint[2], b: Qint[2]) -> Qint[2]:\n    c = a\n    for i in range(2):\n        c = {g}(c)\n    return c\n")
         out.append("def tfun(t: Qlist[Qint[2], 2]) -> Qint[2]:\n    c = 0\n    for x in t:\n        c = c + {g}(x)\n    return c\n")
-    elif argt == ["Qint[2]", "Qint[2]"]:
+    elif argt == ["Qint[2]", "Qint[2]"] and rt != "Tuple":
         sig = "a: Qint[2], b: Qint[2]"
         for e, r in [("{g}(a, b)", rt), ("{g}(b, a)", rt), ("{g}(a, a)", rt), ("{g}(a, 1)", rt), ("{g}(3, b)", rt), ("{g}(a + 1, b)", rt),
                      ("{g}(a, b ^ a)", rt)]:
@@ -104,6 +105,15 @@ def callers(name):
         out.append("def tfun(t: Tuple[bool, bool], u: Tuple[bool, bool]) -> bool:\n    return {g}(t) and {g}(u)\n")
         out.append("def tfun(t: Tuple[Tuple[bool, bool], bool]) -> bool:\n    return {g}(t[0]) ^ t[1]\n")
         out.append("def tfun(t: Qlist[bool, 2]) -> bool:\n    return {g}(t)\n")
+    elif rt == "Tuple":
+        sig = "a: Qint[2], b: Qint[2]"
+        out.append("def tfun(%s) -> Qint[2]:\n    c = {g}(b, a)\n    return c[1]\n" % sig)
+        out.append("def tfun(%s) -> Qint[2]:\n    c = {g}(a, b)\n    return c[0] + c[1]\n" % sig)
+        out.append("def tfun(%s) -> Qint[2]:\n    a, b = {g}(a, b)\n    return a - b\n" % sig)
+        out.append("def tfun(%s) -> Qint[2]:\n    c, d = {g}(a, b)\n    return c ^ d\n" % sig)
+        out.append("def tfun(%s) -> Tuple[Qint[2], Qint[2]]:\n    return {g}(a, b)\n" % sig)
+        out.append("def tfun(%s) -> Tuple[Qint[2], Qint[2]]:\n    c = {g}(a, b)\n    return c\n" % sig)
+        out.append("def tfun(%s) -> bool:\n    return {g}(a, b) == {g}(b, a)\n" % sig)
     else:  # (Qint[2], Qint[4]) -> Qint[4]
         sig = "a: Qint[2], b: Qint[4]"
         for e in ["{g}(a, b)", "{g}(a, b) + a", "{g}(1, b)", "{g}(a, 5)", "{g}(a, {g}(a, b))"]:
